@@ -55,6 +55,8 @@ def judge_pair(raw, mn):
 
 
 BIAS = [
+    'cmd [(a|x)(c|y)]...(a|x|b)d;',
+    'cmd [<KV>,]...(<KV>|none)[!]; <KV> = (k|q)=(v|w);',
     'cmd [a [c]] | [b [c]];',
     'cmd [a] [b] [c];',
     'cmd ([a] b | a) [c];',
@@ -80,6 +82,21 @@ def biased_grammar(r):
         if k < 0.85:
             return gast.many(gast.opt(tail(depth - 1)))
         return gast.seq(gast.opt(tail(depth - 1)), gast.opt(tail(depth - 1)))
+    if r.random() < 0.25:
+        # a word that begins with an optional repetition and loops back to its own start
+        item = gast.alt(gast.lit(r.choice('ax')), gast.lit(r.choice('ky')))
+        item2 = gast.alt(gast.lit(r.choice('cv')), gast.lit(r.choice('wz')))
+        rep = gast.opt(('word', (item, item2, gast.lit(r.choice([',', '']))))) if False else \
+            gast.opt(('word', (item, item2)))
+        body = ('word', (gast.many(rep) if r.random() < 0.5 else gast.opt(gast.many(('word', (item, item2)))),
+                         gast.alt(item, gast.lit('b')), gast.lit('d')))
+        e = gast.seq(body, gast.opt(gast.lit('end')))
+        if r.random() < 0.5:
+            e = gast.seq(('word', (gast.opt(gast.many(('word', (gast.nt('KV'), gast.lit(','))))),
+                                   gast.alt(gast.nt('KV'), gast.lit('none')), gast.opt(gast.lit('!')))), gast.lit('x'))
+            return [gast.call('cmd', e), gast.defn('KV', None, ('word', (gast.alt(gast.lit('k'), gast.lit('q')),
+                                                                       gast.lit('='), gast.alt(gast.lit('v'), gast.lit('w')))))]
+        return [gast.call('cmd', e)]
     if r.random() < 0.3:
         e = gast.opt(tail(r.randint(1, 4)))
     else:
@@ -110,6 +127,32 @@ def check_text(P, text, shell, acc, origin, stmts=None):
         acc.count('not_accepted_' + str(ans.get('stage')))
         return
     acc.count('programs')
+    # the nested automata as the compiler stores them inside the main automaton must be the minimal
+    # automata of the within-word regexes: same language as some raw automaton, trim, no equivalent states
+    if ans['dfa_min']['subs']:
+        from .. import refsem
+        raw_canons = []
+        for sr in ans.get('subraw', []):
+            if 'raw' in sr:
+                raw_canons.append(refsem.dump_canon(sr['raw']))
+        for sid, flat in ans['dfa_min']['subs'].items():
+            acc.count('stored_nested_automata_judged')
+            acc.evals += 1
+            c = refsem.dump_canon({'main': flat, 'subs': {}})
+            nstates = len({t[0] for t in flat['tr']} | {t[2] for t in flat['tr']} | {flat['start']})
+            if c not in raw_canons:
+                acc.count('disagreements_checked')
+                acc.violation({'sig': 'stored-nested-automaton-language-changed',
+                               'what': 'nested automaton #%s stored in the compiled automaton accepts a language that no '
+                                       'within-word expression of the grammar has' % sid,
+                               'grammar': text, 'shell': shell, 'origin': origin, 'min': flat})
+                return
+            if c[0] != nstates:
+                acc.count('disagreements_checked')
+                acc.violation({'sig': 'stored-nested-automaton-not-minimal',
+                               'what': 'nested automaton #%s has %d states, its language needs %d' % (sid, nstates, c[0]),
+                               'grammar': text, 'shell': shell, 'origin': origin, 'min': flat})
+                return
     pairs = [('main', ans['dfa_raw']['main'], ans['dfa_min']['main'])]
     for i, sr in enumerate(ans.get('subraw', [])):
         if 'raw' in sr:
